@@ -725,6 +725,57 @@ def _fields(v):
     return fields_in_slice(v)
 
 
+def probe_rule(chk, prog):
+    """K12-probe: compressed input is recognised whatever its length.  In the function that sniffs the input and wraps it
+    in a decompressing stream, no condition on the number of bytes the peek delivered stands between the peek and the
+    call that recognises the magic numbers: that call (and the tar probe in front of it) look at the length themselves,
+    a threshold in the caller sends short compressed archives down the uncompressed path (read as an empty archive)."""
+    n = 0
+    for f in prog.functions():
+        if f.decl:
+            continue
+        det = [c for c in f.calls() if norm_callee(c.callee) == "xfrm_compressor_id_from_magic"]
+        if not det:
+            continue
+        f.build()
+        wraps = [c for c in f.calls() if norm_callee(c.callee) in ("istream_xfrm_create", "decompressor_stream_create")]
+        if not wraps:
+            continue
+        for d in det:
+            n += 1
+            chk.analysed(f)
+            inst = "%s:detect@%d" % (f.name, d.line)
+            # the length handed to the detector: a local filled by the peek
+            ln = d.ops[1] if len(d.ops) >= 2 else None
+            loc = None
+            x = ln
+            while x is not None and x.is_inst and x.op in ("zext", "sext", "trunc"):
+                x = x.ops[0]
+            if x is not None and x.is_inst and x.op == "load":
+                loc = strip_casts(x.ops[0])
+            bad = None
+            for (cond, outcome, br) in f.guards_at(d.bb):
+                if not (cond.is_inst and cond.op == "icmp"):
+                    continue
+                for o in cond.ops:
+                    y = o
+                    while y.is_inst and y.op in ("zext", "sext", "trunc"):
+                        y = y.ops[0]
+                    if loc is not None and y.is_inst and y.op == "load" and strip_casts(y.ops[0]) is loc:
+                        k = [z for z in cond.ops if z.is_const and z.is_int]
+                        if k and k[0].uval > 8:
+                            bad = (br, k[0].uval)
+            if bad is None:
+                chk.ok("K12-probe", inst, d, "no length threshold between the peek and the magic number detection")
+            else:
+                chk.violation("K12-probe", inst, bad[0], "the magic number detection is only reached when the peek delivered at least "
+                              "%d bytes: a compressed archive shorter than that is passed on as plain tar (and read as an empty or "
+                              "garbled archive) although the detector itself needs a few bytes only" % bad[1])
+    if n == 0:
+        chk.broke("no function sniffs the input with xfrm_compressor_id_from_magic and wraps it")
+    return n
+
+
 def run(chk):
     chk.explanation = (
         "Structural clauses of the stream-compression wrappers, decided on LLVM IR: (K-codec) for every "
@@ -744,6 +795,8 @@ def run(chk):
     tables_rule(chk, prog)
     trailer_rule(chk, load_program("sqfs2tar"))
     member_rule(chk, prog)
+    probe_rule(chk, prog)
+    chk.floor("K12-probe", 1)
     pending_invariant_rule(chk, load_program("sqfs2tar"))
     truncated_rule(chk, prog)
     chk.floor("K1-truncated", 1)
